@@ -173,7 +173,7 @@ def run(tier: str, seed: int) -> int:
     check_mean(run_, ex, jnp, rng, tier)
     check_work(run_, ex, jnp, rng, tier)
     check_equilibria(run_, ex, jnp, rng, tier)
-    shutil.rmtree(tlc.SCRATCH, ignore_errors=True)
+    tlc.cleanup_mine()
     run_.rule = ("TLC: MeanOK/EnergyOK/VortOK/Rot3dOK over sums of degree+1 basis functions (trilinear forms), MC_Linear.MeanOK, MC_ETDRK.RowSumOK; "
                  "conformance: one monitored 3-step rollout per (class, form, D, N, order) validated by TLC (Trace_Monitor), physical-space work on "
                  "band-limited states, constant equilibria x orders 1-4")
